@@ -29,7 +29,14 @@ func main() {
 	out := flag.String("out", "-", "result json")
 	replay := flag.String("replay", "", "replay file (ops, one per line)")
 	flag.StringVar(&driverPath, "driver", driverPath, "lean driver executable")
+	shard := flag.String("shard", "", "k/n: run only the generated cases whose index is k modulo n (the generator is run in full, so the union of the n shards is the unsharded suite)")
 	flag.Parse()
+	if *shard != "" {
+		if _, err := fmt.Sscanf(*shard, "%d/%d", &shardK, &shardN); err != nil || shardN < 1 || shardK < 0 || shardK >= shardN {
+			fmt.Fprintln(os.Stderr, "bad -shard", *shard)
+			os.Exit(2)
+		}
+	}
 	logger.SetLogger(nolog{})
 	start := time.Now()
 	r := rand.New(rand.NewSource(*seed))
